@@ -101,10 +101,34 @@ def _direction(tag, snd, rcv, order, p):
     return None
 
 
+def _plain_of(case, nm):
+    """plaintext given in hex, or compactly as {'n': length, 's': seed} (large payloads: a SHA-256 counter stream)"""
+    v = case[nm]
+    if isinstance(v, str):
+        return bytes.fromhex(v)
+    out = bytearray()
+    c = 0
+    while len(out) < v['n']:
+        out += hashlib.sha256(b'c20/plain/%d/%d' % (v['s'], c)).digest() * 64
+        c += 1
+    return bytes(out[:v['n']])
+
+
+def enum_channel_large(tier):
+    """payloads around every power of two 2^12..2^21 (thorough 2^24) and a few multiples: buffers, block and chunk sizes"""
+    top = 22 if tier == 'quick' else 25
+    sizes = sorted({(1 << k) + d for k in range(12, top) for d in (-1, 0, 1)} | {3 * (1 << 20) - 1, 5 * 65536 + 3, 1000000})
+    for i, n in enumerate(sizes):
+        a, b = hashlib.sha256(b'c20/la/%d' % (i % 3)).digest(), hashlib.sha256(b'c20/lb/%d' % (i % 3)).digest()
+        if i % 2:
+            a, b = b, a
+        yield {'a': a.hex(), 'b': b.hex(), 'ids': {'mode': 'chan'}, 'p': {'n': n, 's': i}, 'q': {'n': (n * 7) % 50021, 's': i + 1000}, 'large': 1}
+
+
 def check_channel(case):
     from pytoniq_core.crypto.ciphers import Client, Server, AdnlChannel
     a, b = bytes.fromhex(case['a']), bytes.fromhex(case['b'])
-    p, q = bytes.fromhex(case['p']), bytes.fromhex(case['q'])
+    p, q = _plain_of(case, 'p'), _plain_of(case, 'q')
     pub_a, pub_b = refkeys.ed_keypair(a)[0], refkeys.ed_keypair(b)[0]
     ids = case['ids']
 
@@ -211,8 +235,9 @@ def classify_channel(case):
         yield 'raw-ids-differ-at=' + ('many' if len(d) > 1 else 'first-byte' if d[0] == 0 else 'last-byte' if d[0] == 31 else 'middle-byte')
     yield 'seeds=' + ('equal' if case['a'] == case['b'] else 'distinct')
     for nm in ('p', 'q'):
-        n = len(case[nm]) // 2
-        yield 'plaintext-len=' + ('0' if n == 0 else '1..16' if n <= 16 else '17..255' if n <= 255 else '256..2000')
+        n = len(case[nm]) // 2 if isinstance(case[nm], str) else case[nm]['n']
+        yield 'plaintext-len=' + ('0' if n == 0 else '1..16' if n <= 16 else '17..255' if n <= 255 else '256..2000' if n <= 2000 else
+                                  '2001..65536' if n <= 65536 else '65537..2^20' if n <= (1 << 20) else '>2^20')
 
 
 def nt_channel(case):
@@ -292,6 +317,19 @@ def check_sign(case):
             if _accepts(verify_sign, pk, m, s2):
                 return Fail(f'verify_sign/accepts/{kind}',
                             f'pk={pk.hex()} msg={m.hex()[:120]} sig={sig.hex()} altered={s2.hex()} (sigbit={case["sigbit"] % 512})')
+        # the boundary between signature and message moved: (signature + first k message bytes, rest of the message) and
+        # (first 64-k signature bytes, rest of the signature + message) - an altered signature and another message at once
+        for k in sorted(k for k in {1, len(m) // 2, len(m)} if 1 <= k <= len(m)):
+            if _accepts(verify_sign, pk, m[k:], sig + m[:k]):
+                return Fail('verify_sign/accepts/signature-extended-by-message-prefix', f'k={k} pk={pk.hex()} msg={m.hex()[:120]}')
+        for k in (1, 32, 63):
+            if _accepts(verify_sign, pk, sig[64 - k:] + m, sig[:64 - k]):
+                return Fail('verify_sign/accepts/signature-tail-moved-into-message', f'k={k} pk={pk.hex()} msg={m.hex()[:120]}')
+    # a genuine signature over (extra || m), presented as the signature (sig64 || extra) of m
+    extra = bytes.fromhex(case['other_msg'])[:40] or b'\x01'
+    s_ext = SigningKey(seed).sign(extra + m).signature
+    if _accepts(verify_sign, pk, m, bytes(s_ext) + extra):
+        return Fail('verify_sign/accepts/signature-of-prefixed-message-with-prefix-appended', f'pk={pk.hex()} msg={m.hex()[:120]} extra={extra.hex()}')
     return None
 
 
@@ -455,6 +493,8 @@ SUBCHECKS = [
     Sub('channel-grid', check_channel, enum=enum_channel, classify=classify_channel, nontrivial=nt_channel, shards=(8, 16),
         note='deterministic seeds x id modes (chan, lt, lt-equal, raw-equal, raw one-byte-apart at 3 positions in both orders) '
              'x (a,b),(b,a),(a,a) x plaintext length boundaries'),
+    Sub('channel-large-payloads', check_channel, enum=enum_channel_large, classify=classify_channel, nontrivial=lambda c: True, shards=(16, 16),
+        case_cpu_s=120, note='payload lengths 2^k-1, 2^k, 2^k+1 for k = 12..21 (thorough ..24), 3*2^20-1, 5*65536+3, 10^6'),
     Sub('channel-random', check_channel, strategy=strat_channel, classify=classify_channel, nontrivial=nt_channel,
         n=(1000, 20000), shards=(8, 32)),
     Sub('sign-all-bit-flips', check_sign, enum=enum_sign_bits, classify=classify_sign, shards=(8, 16),
